@@ -1,1 +1,2 @@
+import Neutrino.Props.C03
 import Neutrino.Props.C16
